@@ -6,7 +6,7 @@ Parsed files are cached (pickle) next to the dump, keyed by the dump's content h
 import hashlib, os, pickle, re
 from dataclasses import dataclass, field
 
-PARSER_VERSION = 9
+PARSER_VERSION = 11
 
 
 @dataclass
@@ -169,7 +169,7 @@ UNOPS = {"Not", "Neg", "PtrMetadata"}
 def parse_rvalue(s):
     s = s.strip()
     if s.startswith("&"):
-        m = re.match(r"^&(mut |raw const |raw mut |fake shallow |fake )?(.*)$", s)
+        m = re.match(r"^&(mut |raw const \(fake\) |raw mut \(fake\) |raw const |raw mut |fake shallow |fake )?(.*)$", s)
         kind = (m.group(1) or "").strip()
         return ("ref", parse_place(m.group(2)), kind)
     m = re.match(r"^([A-Za-z]+)\((.*)\)$", s)
@@ -399,8 +399,15 @@ def parse_text(txt, crate=""):
             try:
                 f = _parse_func(m.group(1).split()[0], m.group(2), lines[i + 1:j])
                 f.crate = crate
-                # duplicates: enum variant constructors are emitted twice; keep the first
-                funcs.setdefault(f.name, f)
+                # duplicates: enum variant constructors are emitted twice (keep the first); functions generated by one derive
+                # attribute share their `<impl at ..>` span (thiserror's `#[from]` impls) and differ in their parameter types:
+                # those are all kept, under `name#k` (the method index of Program sees every value)
+                prev = funcs.get(f.name)
+                if prev is None: funcs[f.name] = f
+                elif [t for _, t in prev.params] != [t for _, t in f.params]:
+                    k = 2
+                    while f"{f.name}#{k}" in funcs: k += 1
+                    funcs[f"{f.name}#{k}"] = f
             except Exception as e:            # header we cannot parse: skip (reported by survey tool)
                 funcs.setdefault("!unparsed:" + m.group(2)[:120], Func("!unparsed", "bad", [], "", {}, {}, crate=crate, src=str(e)))
             i = j + 1
